@@ -17,7 +17,7 @@ pub fn meta() -> Meta {
         level: "exploration",
         rule: "every generated program (each leaf template alone and in every one-level context after its declarations, statement sequences, and the same with one injected semantic fault: a declaration deleted, duplicated, retyped, turned into a qubit or made const) under (a) the 7 uniform layouts and every layout deviating from the default in at most k gaps of its last statements with each separator flavour, (b) 4 fixed injective renamings of all user identifiers to fresh names (ASCII, leading underscore, Unicode, keyword-prefixed) and rotations, reversal and adjacent swaps of the user identifiers among themselves, (c) every split point at a top-level statement boundary, (d) the same text analysed twice; differential equality of graph, symbol table (up to the renaming) and diagnostic kinds; non-trivial = programs with at least two user identifiers and one diagnostic or one compound statement; outcomes = distinct (statement count, diagnostic kinds) observations",
         assumptions: vec![
-            "a number and its unit are separated by blanks only; gaps inside pragma / annotation lines are not varied; splits do not separate an annotation from its statement",
+            "a number and its unit are separated by blanks only; gaps inside pragma / annotation lines are not varied",
             "renamings never map onto keywords, built-in constants, U or standard-library gate names",
             "programs on which the analyser panics or that the parser rejects are skipped (C03/C04)",
         ],
@@ -265,9 +265,6 @@ pub fn oracle_with(case: &ProgCase, index: u64, ctx: &mut Ctx, gap_bound: usize)
     // (c) prefixes at every top-level statement boundary
     let nst = case.stmts.len();
     for cut in 1..nst {
-        if matches!(case.stmts[cut - 1], Stmt::Annotation(_)) {
-            continue;
-        }
         let ptoks: Vec<Tok> = toks.iter().filter(|t| t.stmt < cut).cloned().collect();
         let text = layout_uniform(&ptoks, " ");
         ctx.count("prefix_variants", 1);
@@ -299,8 +296,9 @@ pub fn oracle2(case: &ProgCase, index: u64, ctx: &mut Ctx) {
 
 pub fn spaces(tier: Tier, _seed: u64) -> Vec<Box<dyn Space>> {
     match tier {
-        Tier::Quick => vec![gprog::spines(0, false, true, false, oracle1), gprog::spines(1, false, true, true, oracle1), gprog::sequences(1, true, true, oracle1), gprog::spines(0, false, false, false, oracle1)],
+        Tier::Quick => vec![gprog::annotated(oracle1), gprog::spines(0, false, true, false, oracle1), gprog::spines(1, false, true, true, oracle1), gprog::sequences(1, true, true, oracle1), gprog::spines(0, false, false, false, oracle1)],
         Tier::Thorough => vec![
+            gprog::annotated(oracle2),
             gprog::spines(0, false, true, false, oracle2),
             gprog::spines(1, false, true, true, oracle1),
             gprog::sequences(1, true, true, oracle2),
